@@ -26,11 +26,14 @@ when the limit or a stuff sequence is reached, terminate asserts current < max b
 whole argument returning the first window equal to STUFF_SEQUENCE (no block skipping).
 NOT decided: absence of FE FD inside and across payload slices for all inputs, split-independence as an
 equality of outputs, the numeric length bound (value-level).
+(R2.7 = R4.1-R4.3, R4.6) what was drained early versus late: every consumer view and every consuming call
+of the output iovec is clamped to the stable prefix, which stops at the still-open chunk header, so the
+bytes are the same whenever they are drained.
 """
 
 ASSUMPTIONS = ['OwningIovec delivers what was pushed (C03/C04)']
 
-FLOORS = {'R2.1': 4, 'R2.2': 4, 'R2.3': 4, 'R2.4': 8, 'R2.5': 6, 'R2.6': 3}
+FLOORS = {'R2.1': 4, 'R2.2': 4, 'R2.3': 4, 'R2.4': 8, 'R2.5': 6, 'R2.6': 3, 'R2.7': 30}
 
 ES = 'hcobs::encoder::EncoderState'
 
@@ -349,4 +352,10 @@ def r2_6(cx):
     check_find_stuff(cx)
 
 
-RULES = [('R2.1', r2_1), ('R2.2', r2_2), ('R2.3', r2_3), ('R2.4', r2_4), ('R2.5', r2_5), ('R2.6', r2_6)]
+def r2_7(cx):
+    """drain-schedule independence: the consumer only ever sees and removes the stable prefix, which stops at the open chunk header (R4.1-R4.3, R4.6)"""
+    from . import c04
+    compose(cx, [('R4.1', c04.r4_1), ('R4.2', c04.r4_2), ('R4.3', c04.r4_3), ('R4.6', c04.r4_6)])
+
+
+RULES = [('R2.1', r2_1), ('R2.2', r2_2), ('R2.3', r2_3), ('R2.4', r2_4), ('R2.5', r2_5), ('R2.6', r2_6), ('R2.7', r2_7)]
